@@ -124,8 +124,8 @@ def encodingsDecode (env : Env) (bs : Bytes) (encoding : Bytes) : Except Exn Tex
   | .ude => .error .unicodeDecode
   | .other => .error .other
 
-/-- `s.strip(chars)` -/
-def stripChars (s : Text) (chars : Text) : Text := strip (fun c => chars.contains c) s
+/-- `s.strip(chars)`; `codes`: the code points of `chars` -/
+def stripCodes (s : Text) (codes : List Nat) : Text := strip (fun c => codes.contains c.toNat) s
 
 /-- truth value of `None` / a str -/
 def truthyOpt : Option Text → Bool
